@@ -5,17 +5,9 @@ verus! {
 //@nopub
 //@include ioerr.rs
 //@include error.rs
+//@include le.rs
 //@include dev.rs
 //@include page_r_body.rs
-
-#[verifier::external_body]
-fn shim_u64_from_le_bytes(b: [u8; 8]) -> (r: u64)
-    ensures r == le64(b@)
-{ u64::from_le_bytes(b) }
-spec fn le64(b: Seq<u8>) -> u64 {
-    (b[0] as u64) | (b[1] as u64) << 8 | (b[2] as u64) << 16 | (b[3] as u64) << 24
-    | (b[4] as u64) << 32 | (b[5] as u64) << 40 | (b[6] as u64) << 48 | (b[7] as u64) << 56
-}
 
 //@item src/e57_reader.rs const MAX_XML_SIZE
 //@enditem
@@ -36,7 +28,7 @@ impl E57Reader {
         ensures final(reader).data@ == old(reader).data@,
             match r {
                 // the little-endian u64 at the absolute offset: independent of the previous position
-                Ok(v) => offset + 8 <= old(reader).data@.len() && v == le64(old(reader).data@.subrange(offset as int, offset + 8))
+                Ok(v) => offset + 8 <= old(reader).data@.len() && le_bytes64(v) == old(reader).data@.subrange(offset as int, offset + 8)
                     && final(reader).failed@ == old(reader).failed@,
                 Err(_) => final(reader).failed@ || offset + 8 > old(reader).data@.len() },
 //@endfn
@@ -78,7 +70,7 @@ impl E57Reader {
 //@sig
         ensures match r {
             // C07: success implies EVERY page of the device carries a valid checksum (page size taken from header bytes 40..48)
-            Ok(ps) => ps > 4 && reader.data@.len() >= 48 && ps == le64(reader.data@.subrange(40, 48))
+            Ok(ps) => ps > 4 && reader.data@.len() >= 48 && le_bytes64(ps) == reader.data@.subrange(40, 48)
                 && all_sealedn(reader.data@, ps as int),
             Err(_) => true },
 //@loop 0 before hdr=while paged_reader
